@@ -103,6 +103,23 @@ def cases(tier, seed, rng):
                 for m in ('GE', 'LE', 'EQ', 'L', 'G'):
                     lines.append('idx %s %s' % (f64(x), m))
             out.append(Case(lines, 'gen:sampled-roundtrip'))
+    # sampled axes at the edge of the number format: intervals +inf, huge and denormal, offsets whose difference to the position
+    # overflows — the index estimate is then inf or NaN (inf / inf) and must become "no index" (or the index the rule names)
+    from vlib.runner import Case
+    big = 1.7976931348623157e308
+    for si in [math.inf, 1e308, big, 5e-324, 1e-300, 2.0 ** 52, 3.0]:
+        for off in ([None, -1e308, 1e308, -big] if not quick else [None, -1e308, rng.choice([1e308, -big])]):
+            decl = 'axis_sampled %s %s ~' % (f64(si), '~' if off is None else f64(off))
+            lines = [decl]
+            for p in [0.0, 1.0, -1.0, 1e308, -1e308, big, -big, math.inf, -math.inf, math.nan, 5e-324, 2.0 ** 53, 1e300]:
+                for m in MATCHES:
+                    lines.append('idx %s %s' % (f64(p), m))
+            for s_, e_ in [(-1e308, 1e308), (0.0, math.inf), (-math.inf, math.inf), (math.nan, 1.0), (1e308, big), (0.0, 0.0), (-big, big)]:
+                for rm in ('incl', 'excl'):
+                    lines.append('pair %s %s %s' % (f64(s_), f64(e_), rm))
+            for i in (0, 1, 2, 1000):
+                lines.append('posat %d' % i)
+            out.append(Case(lines, 'gen:sampled-extreme'))
     # range axes
     nr = 12 if quick else 120
     for k in range(nr):
@@ -125,6 +142,16 @@ def cases(tier, seed, rng):
                 c2 = axis_case('range', 'axis_reticks %s' % lst([f64(x) for x in other]), other, True, rng, 'quick')
                 from vlib.runner import Case
                 out.append(Case(c1.lines[:120] + c2.lines[:200], 'gen:range-reticked'))
+    # a range axis WITHOUT ticks: the alias dimension of an array of extent 0 (no position has an index; every entry point says so)
+    for decl in ('axis_alias []',):
+        lines = [decl]
+        for p in (0.0, 1.0, -1.0, 1e9, math.nan, math.inf):
+            for m in MATCHES: lines.append('idx %s %s' % (f64(p), m))
+        for s_, e_ in ((0.0, 1.0), (1.0, 0.0), (0.0, 0.0), (-math.inf, math.inf)):
+            for rm in ('incl', 'excl'): lines.append('pair %s %s %s' % (f64(s_), f64(e_), rm))
+        lines.append('pairv %s %s incl' % (lst([f64(0.0), f64(1.0)]), lst([f64(1.0), f64(2.0)])))
+        lines += ['posat 0', 'axisv 0 0', 'axisv 1 0']
+        out.append(Case(lines, 'gen:range-empty'))
     # set / data-frame axes
     for kind in ('set', 'df'):
         for cnt in ([0, 1, 2, 5, 17] if quick else [0, 1, 2, 3, 5, 17, 64, 1000]):
